@@ -809,6 +809,50 @@ class TwinProgram:
         return self.tasks[i].hash
 
 
+class BigProgram:
+    """t0(x) -> t1(x); both return strings of a few hundred bytes (>= value_store_min_size of the test backend), so
+    that their Value rows are placeholders and the data lives in the value store.  `runs` counts task executions."""
+
+    def __init__(self, ns="gcbig"):
+        self.ns = ns
+        self.versions = [1, 1]
+        self.n = 2
+        self.runs = []
+
+    def describe(self):
+        return dict(program="t0 -> t1, string results of ~600 bytes kept in the value store", versions=list(self.versions))
+
+    def edit(self, i):
+        self.versions[i] += 1
+
+    def expected_main(self):
+        return ["t0v%d" % self.versions[0] + "a" * 600, "t1v%d" % self.versions[1] + "b" * 600 + "1"]
+
+    def define(self):
+        from redun import task
+        ns, v0, v1, runs = self.ns, self.versions[0], self.versions[1], self.runs
+
+        @task(name="t1", namespace=ns, version=str(v1))
+        def t1(x):
+            runs.append("t1")
+            return "t1v%d" % v1 + "b" * 600 + str(x)
+
+        @task(name="t0", namespace=ns, version=str(v0))
+        def t0(x):
+            runs.append("t0")
+            return ["t0v%d" % v0 + "a" * 600, t1(x)]
+
+        @task(name="main_big", namespace=ns, version="1")
+        def main_big():
+            runs.append("main")
+            return t0(1)
+        self.tasks = {0: t0, 1: t1}
+        return main_big
+
+    def task_hash(self, i):
+        return self.tasks[i].hash
+
+
 class FailProgram:
     """S(shallow)(x) = catch_all([stage(x)], ValueError, recover); stage -> fetch; fetch raises ValueError while its
     version is odd and returns x * 10 once it is even.  mode "single": main = S(3); mode "twin": main =
@@ -828,7 +872,7 @@ class FailProgram:
         self.versions[i] += 1
 
     def expected_main(self):
-        return "fallback" if self.versions[0] % 2 == 1 else [30]
+        return ["fallback"] if self.versions[0] % 2 == 1 else [30]
 
     def define(self):
         from redun import task
@@ -847,7 +891,7 @@ class FailProgram:
 
         @task(name="recover", namespace=ns, version="1")
         def recover(error):
-            return "fallback"
+            return ["fallback"]
 
         @task(name="first", namespace=ns, version="1")
         def first(x):
